@@ -276,4 +276,7 @@ def r6_tick_pass(cx):
     cx.ob("C19.R6", "do_tick:failure-local", body_ok, "a failing timeout rule of one task does not end the pass (no error leaves the per-task body)", f.loc())
     from rules.common import children_in_selector
     children_in_selector(cx, "C19.R6", "timeout")
-    cx.floor("C19.R6", 4)
+    # the clock the rule reads (`task.start_time()`) and its once-flag (in `data`) survive a reload: both cells are rewritten
+    # by every update of the task row (otherwise a reloaded task looks as if it had been open since 1970, or fires again)
+    from rules import c12
+    c12.r6(cx, "C19.R6", only={("task", "start_time"), ("task", "data")}, floor=6)
